@@ -1123,6 +1123,14 @@ class tensor:
         if isinstance(U, ttb.ktensor):
             weights = U.weights
             U = U.factor_matrices
+        if len(U) != self.ndims or any(
+            np.ndim(u) != 2 or u.shape[0] != s for u, s in zip(U, self.shape)
+        ):
+            raise ValueError(
+                "One factor matrix per mode is required, each with as many rows "
+                f"as its mode: tensor shape {self.shape}, "
+                f"factor shapes {[np.shape(u) for u in U]}"
+            )
         split_idx = min_split(self.shape)
         V = [np.empty_like(self.data, shape=())] * self.ndims
         K = ttb.khatrirao(*U[split_idx + 1 :], reverse=True)
